@@ -33,10 +33,17 @@ class Scope:
             if name in s.decl:
                 return True
             for m, only in s.uses:
-                if only is not None and name in only:
+                if only is not None and name in [local_name(o) for o in only]:
+                    return True
+            for m, ren in getattr(s, "renames", []):
+                if name in ren:
                     return True
             s = s.parent
         return False
+
+
+def local_name(o):
+    return o.split("=>")[0].strip()
 
 
 class Gen:
@@ -56,7 +63,14 @@ class Gen:
         rng = self.rng
         if allow_use and self.modules and rng.random() < 0.5:
             for m in rng.sample(self.modules, min(len(self.modules), rng.randrange(1, 3))):
-                if m.decl and rng.random() < 0.7:
+                if m.plain and rng.random() < 0.25:
+                    # a renamed import whose LOCAL name is an intrinsic name
+                    loc = rng.choice(INTR)[0]
+                    if rng.random() < 0.5:
+                        sc.uses.append((m.name, ["%s => %s" % (loc, rng.choice(m.plain))]))
+                    else:
+                        sc.renames = getattr(sc, "renames", []) + [(m.name, {loc: rng.choice(m.plain)})]
+                elif m.decl and rng.random() < 0.7:
                     only = rng.sample(m.decl, rng.randrange(1, len(m.decl) + 1))
                     if rng.random() < 0.4 and m.plain:
                         only = only + [rng.choice(m.plain)]
@@ -65,7 +79,8 @@ class Gen:
                     sc.uses.append((m.name, None))      # wildcard: only from modules without intrinsic names
                 else:
                     sc.uses.append((m.name, [rng.choice(m.plain)] if m.plain else []))
-        imported = {n for _, only in sc.uses if only for n in only}
+        imported = {local_name(n) for _, only in sc.uses if only for n in only}
+        imported |= {n for _, ren in getattr(sc, "renames", []) for n in ren}
         k = rng.choice([0, 0, 1, 1, 2, 3])
         cands = [n for n, _ in INTR if n not in imported]
         sc.decl = rng.sample(cands, k)
@@ -113,7 +128,9 @@ class Gen:
         while s is not None:
             out += s.decl
             for _, only in s.uses:
-                out += [n for n in (only or []) if n in NARGS]
+                out += [local_name(n) for n in (only or []) if local_name(n) in NARGS]
+            for _, ren in getattr(s, "renames", []):
+                out += [n for n in ren if n in NARGS]
             s = s.parent
         return out
 
@@ -163,6 +180,8 @@ def render(units):
     def spec(sc, ind):
         for m, only in sc.uses:
             out.append(ind + ("use %s" % m if only is None else "use %s, only: %s" % (m, ", ".join(only))))
+        for m, ren in getattr(sc, "renames", []):
+            out.append(ind + "use %s, %s" % (m, ", ".join("%s => %s" % kv for kv in ren.items())))
         out.append(ind + "real :: x")
         for n in sc.decl:
             out.append(ind + "%s :: %s(%s)" % (sc.typ[n], n, ", ".join(["10"] * NARGS[n]) if True else ""))
@@ -216,7 +235,8 @@ def expected_tables(units):
     def tab(sc):
         kids = [tab(b) for b in blocks(sc.body)] + [tab(c) for c in sc.contains]
         return ("block" if sc.kind == "block" else sc.name, sorted(set(sc.decl + sc.plain + ["x"])),
-                sorted((m, None if only is None else sorted(only)) for m, only in merge_uses(sc.uses)), kids)
+                sorted((m, None if only is None else sorted(local_name(o) for o in only))
+                       for m, only in merge_uses(list(sc.uses) + [(m2, None) for m2, _ in getattr(sc, "renames", [])])), kids)
     return [tab(u) for u in units]
 
 
